@@ -214,7 +214,7 @@ Definition export_function_range (header : list line) (func : T -> T) (xmin xmax
 Fixpoint read_nums (l : list tok) : list T :=
   match l with Num x :: tl => x :: read_nums tl | _ => [] end.
 
-(** the tokens left after `ignored_initial_lines` calls of ignore(10000,'\n') (lines shorter than 10000 characters) *)
+(** the tokens left after `ignored_initial_lines` calls of ignore(max,'\n') (each skips one line, whatever its length) *)
 Definition after_header (f : file) (ignored : nat) : list tok := concat (skipn ignored f).
 
 (** Import_List; [None] = the file cannot be opened *)
